@@ -28,6 +28,9 @@ CHECKS = {
  "C06": ("exploration", "6 C06",
          "Two simulated Conserve processes (backup and delete/gc) racing through storage one operation at a time under a scheduler the simulator owns: all single-preemption schedules in both orders, sampled three-preemption schedules (thorough) and seeded biased-random schedules, over directed archive states (basis being deleted, garbage whose content reappears) and random histories.",
          "deterministic simulation of two racing processes with a controlled scheduler: systematic preemption-bounded schedules + seeded random schedules"),
+ "C07": ("exploration", "6 C07",
+         "Seeded histories (with killed and resumed backups, zero-length leftovers, deletes, gc) checked step by step against the operation log and a byte-for-byte before/after store image, and two backups of different sources racing as two simulated processes under systematic single-preemption and seeded random schedules; one third of the runs execute the real transport/local.rs on tmpfs behind the interceptor.",
+         "deterministic simulation (histories with crash injection; two racing processes under a controlled scheduler) with an operation-log oracle, on both the stub store and the real local transport"),
  "C14": ("fault_enumeration", "6 C14",
          "Operation-log oracles in simulation: an unchanged tree backed up again writes no block and records identical addresses; over histories no block path is written while it holds content; and for EVERY crash point of a backup the resumed backup rewrites nothing and reuses the interrupted run's recorded entries.",
          "deterministic simulation with exhaustive crash-point injection per scenario + operation-log oracle"),
